@@ -112,6 +112,9 @@ def execute(case):
     hist, rows, tps, spell = case["hist"], case["rows"], case["tps"], case["spell"]
     df = pd.DataFrame({"onset": [r[0] for r in rows], "HED": [r[1] for r in rows]})
     calls = []
+    relabel = case.get("n", 0) % 3 == 1
+    if relabel:
+        df.index = [11 + 2 * i for i in range(len(rows))]       # row labels that are not 0..n-1 (a filtered / re-read table)
     real = ov.OnsetValidator.validate_temporal_relations
 
     def wrapped(self, hs):
@@ -164,6 +167,14 @@ def execute(case):
     by_sp = {}            # (a 3-letter name has 8 letter-case spellings: histories of 9+ markers re-use one, told apart by the row)
     for i, sp in sorted(spell.items()):
         by_sp.setdefault(sp, []).append(i)
+    if relabel:          # issues name the row by its LABEL (+2): translate back to the position in the file
+        for L in (issues,):
+            for iss in L:
+                r = iss.get("ec_row")
+                if isinstance(r, int) and (r - 13) % 2 == 0 and 0 <= (r - 13) // 2 < len(rows):
+                    iss["ec_row"] = (r - 13) // 2 + 2
+                elif r is not None:
+                    iss["ec_row"] = -r          # a row that does not exist in the table
     for iss in issues:
         if iss.get("code") != "TEMPORAL_TAG_ERROR":
             if iss.get("severity", 1) == 1 and iss.get("code") not in ("TAG_EXPRESSION_REPEATED",):
